@@ -91,6 +91,9 @@ type vfC05Case struct {
 	Procs       int       `json:"procs"`
 	ServerFault string    `json:"serverFault"` // script-server fault for one instance tuple ("" = none)
 	FaultTuple  int       `json:"faultTuple"`
+	// ClientExitAfter > 0 (mode both): the scripted client process exits with ClientExitCode after that many requests
+	ClientExitAfter int `json:"clientExitAfter"`
+	ClientExitCode  int `json:"clientExitCode"`
 }
 
 func vfC05Suites(c vfC05Case, dir string) ([]string, map[string][]byte, error) {
@@ -256,6 +259,10 @@ func vfC05Check(c vfC05Case) error {
 	clientScript := filepath.Join(dir, "client.json")
 	serverScript := filepath.Join(dir, "server.json")
 	cs := vfClientScript{ExitAfter: -1, Order: c.Order, Probe: c.Mode == "both", ProbeDial: c.Mode == "client"}
+	clientDies := c.Mode == "both" && c.ClientExitAfter > 0
+	if clientDies {
+		cs.ExitAfter, cs.ExitCode = c.ClientExitAfter, c.ClientExitCode
+	}
 	csData, _ := json.Marshal(cs)
 	_ = os.WriteFile(clientScript, csData, 0o644)
 	tuples := map[string]bool{}
@@ -308,6 +315,11 @@ func vfC05Check(c vfC05Case) error {
 	select {
 	case <-done:
 	case <-time.After(5 * time.Minute):
+		if c.Mode == "both" {
+			// both peers are scripted processes that answer at once or exit; the only waits left are the runner's own
+			// (20 s for an answer, 5 s grace periods): "the run terminates"
+			return verifkit.Violf("run-hang", "Run did not return within 5 minutes (mode both, scripted peers; client exits after %d requests: %v, server fault %q)", c.ClientExitAfter, clientDies, c.ServerFault)
+		}
 		return nil // inconclusive (not owned delays): no verdict
 	}
 	if len(selected) == 0 {
@@ -389,7 +401,7 @@ func vfC05Check(c vfC05Case) error {
 			started[fmt.Sprintf("%d/%d/%v/%v", s.ev.Protocol, s.ev.HTTPVersion, s.ev.UseTLS, s.ev.ClientCert)]++
 		}
 		for t := range tuples {
-			if started[t] == 0 {
+			if started[t] == 0 && !clientDies { // (once the client is gone the runner does not start further servers)
 				return verifkit.Violf("server-missing", "no server was started for tuple %s although selected cases need it\n%s", t, describe())
 			}
 		}
@@ -444,7 +456,7 @@ func vfC05Check(c vfC05Case) error {
 		}
 	}
 	for name, p := range selected {
-		if faultTuple != "" && vfSameServerKind(p.tuple, faultTuple) && ss.Fault != "die-after-conns" {
+		if faultTuple != "" && vfSameServerKind(p.tuple, faultTuple) && ss.Fault != "die-after-conns" && ss.Fault != "ignore-term" {
 			if len(got[name]) != 0 {
 				return verifkit.Violf("delivered-without-server", "%q was handed to the client although its server could not be started\n%s", name, describe())
 			}
@@ -456,6 +468,9 @@ func vfC05Check(c vfC05Case) error {
 		if len(got[name]) == 0 {
 			if faultTuple != "" && vfSameServerKind(p.tuple, faultTuple) {
 				continue // its server died: a setup failure is acceptable
+			}
+			if clientDies {
+				continue // the client was gone: the case cannot have been handed over
 			}
 			return verifkit.Violf("not-delivered", "selected permutation %q was never handed to the client (%d of %d delivered); the runner says: %s\n%s", name, len(got), len(selected), vfFailedText(logP.Full(), name), describe())
 		}
@@ -589,7 +604,7 @@ func TestVerifC05Dispatch(t *testing.T) {
 				c.Generalise = append(c.Generalise, rapid.IntRange(0, 60).Draw(t, "generalise"))
 			}
 			if rapid.IntRange(0, 5).Draw(t, "fault") == 0 {
-				c.ServerFault = rapid.SampledFrom([]string{"exit-before-answer", "garbage", "empty", "no-cert"}).Draw(t, "serverFault")
+				c.ServerFault = rapid.SampledFrom([]string{"exit-before-answer", "garbage", "empty", "no-cert", "ignore-term"}).Draw(t, "serverFault")
 				c.FaultTuple = rapid.IntRange(0, 20).Draw(t, "faultTuple")
 			}
 			return c
@@ -649,14 +664,29 @@ func TestVerifC05ClientKinds(t *testing.T) {
 			rows = append(rows, vfC05Case{Mode: "client", Config: "default", Corpus: true, MaxServers: maxServers, Order: order, Procs: 4, Generalise: []int{0, 0, 0, 0, 0}})
 		}
 	}
+	// scripted server processes that misbehave for one kind of instance, among them one that ignores the request to
+	// stop: it must be gone when the run is over and must not let the run hang
+	for _, k := range []int{1, 7} {
+		rows = append(rows, vfC05Case{Mode: "both", Config: "default", Corpus: true, MaxServers: 2, Order: "immediate", Procs: 4,
+			Generalise: []int{0, 0, 0, 0, 0}, ClientExitAfter: k, ClientExitCode: k % 2})
+	}
+	for _, fault := range []string{"ignore-term", "exit-before-answer"} {
+		for _, mode := range []string{"both", "server"} {
+			rows = append(rows, vfC05Case{Mode: mode, Config: "default", Corpus: mode == "both", MaxServers: 1, Order: "immediate", Procs: 4,
+				Generalise: []int{0, 0, 0, 0, 0}, ServerFault: fault, FaultTuple: len(rows)})
+		}
+	}
 	shard, shards := verifkit.Shard()
 	for i, c := range rows {
 		if i%shards != shard {
 			continue
 		}
+		if !c.Corpus && len(c.Suites) == 0 {
+			c.Suites = []vfSuite{{Name: "Basic", Mode: 2, Cases: []vfSuiteTC{{Name: "unary/success", Stream: 1}, {Name: "server-stream/success", Stream: 3}}}}
+		}
 		err := verifkit.SafeCall(func() error { return vfC05Check(c) })
 		cl, _ := vfC05Classify(c)
-		en.Rec.Observe(c, append(cl, "order:"+c.Order, fmt.Sprintf("maxServers:%d", c.MaxServers)), true)
+		en.Rec.Observe(c, append(cl, "order:"+c.Order, fmt.Sprintf("maxServers:%d", c.MaxServers), "fault:"+c.ServerFault), true)
 		if err != nil {
 			en.Fail(c, err)
 		}
